@@ -163,6 +163,16 @@ def variadic(ctx, world):
             ctx.ob("A2.variadic", construct_of(e), None, e.loc)
             continue
         offs = _argnum_offsets(world.ev, ir.result)
+        # a chain used as the EXCLUSIVE upper bound of a slice of the argument tuple (args[s:][: argnum - c]) denotes the
+        # last included absolute position s + argnum - c - 1, which has to be argnum itself: c == s - 1
+        hi_ok = []
+        for x in deep_terms(world.ev, ir.result):
+            if x.op == "sub" and x.idx.op == "slice" and x.obj.op == "rest":
+                for c_, ch in offs:
+                    if x.idx.hi is ch:
+                        hi_ok.append((ch, c_ == x.obj.start - 1))
+        if hi_ok:
+            offs = [(c_, ch) for c_, ch in offs if not any(h is ch and good for h, good in hi_ok)]
         starts = []
         for x in deep_terms(world.ev, ir.result):
             if x.op == "rest" and x.start > 0:
